@@ -108,10 +108,12 @@ def s4(ck, an):
 def s5(ck, an):
     allowed_direct = 0
     for f in an.functions():
+        if an.is_new_function(f) and an.prog.expanded_into.get(f.qual):
+            continue        # a new helper expanded at its call sites: its statements are seen there
         for node in walk_function(f.node):
             if isinstance(node, ast.Call) and isinstance(node.func, ast.Attribute) and node.func.attr.startswith("process_"):
                 loc = f"{f.module.relpath}:{node.lineno}"
-                if f.short == "TradingEnv.reset" and node.func.attr == "process_EventNBBO":
+                if all(g.short == "TradingEnv.reset" for g in an.attributed(f)) and node.func.attr == "process_EventNBBO":
                     ev = deref(an.fa(f), node.args[0])[0] if node.args else None      # the event may be built in a temporary first
                     const = isinstance(ev, ast.Call) and len(ev.args) >= 4 and all(isinstance(a, ast.Constant) for a in ev.args[2:4])
                     if const:
